@@ -173,6 +173,11 @@ func judgeC26(c c26Case) []Violation {
 }
 
 func checkC26(r *Result, rng *rand.Rand, thorough bool) {
+	traces, doneTraces := collectTraces(200)
+	defer func() {
+		doneTraces()
+		compareSrv(r, "srv", *traces)
+	}()
 	lens := []int{1, 2, 3, 4, 5, 7, 8, 9, 31, 32, 33, 63, 64, 65, 100, 127, 128, 129, 200, 253, 254, 255}
 	counts := []uint32{0, 1, 50, 100, 103, 104, 105, 127, 128, 129, 131, 132, 150, 200, 231, 232, 233, 256, 300, 383, 384, 385, 400, 487, 488, 489, 512, 1000, 1024, 4096, 8192, 32768, 65536, 1 << 20, 0xffffffff}
 	ncases := 400
